@@ -76,6 +76,10 @@ class Parser:
         if t[0] == 'kw' and t[1] == 'a': return "http://www.w3.org/1999/02/22-rdf-syntax-ns#type"
         raise ShExCError("line %s: expected IRI, got %r" % (t[2] and t[2]+1, t[:2]))
     def parse(self):
+        if self.lenient:
+            # examples_mode prints '// rdfs:comment ...' without declaring rdfs: (examples_mode documents are not ShExC
+            # anyway and are excluded from C05); the lenient reader used by C17 tolerates it
+            self.doc.prefixes.setdefault("rdfs", "http://www.w3.org/2000/01/rdf-schema#")
         while self.peek()[0] == 'kw' and self.peek()[1] in ('PREFIX', 'BASE'):
             self.next()
             pn = self.expect('pname'); iri = self.expect('iri')
